@@ -293,8 +293,10 @@ Definition idle (j : bool) : tst :=
   {| pc := Fin; prog := []; opi := 0; joined := j; sl := 0; cj := 0; nd := 0; cur := 0; chead := 0;
      cnt := 0; idx := 0; maxp := 0; snap := []; rlist := []; held := fun _ => 0 |}.
 
+Fixpoint down (p : nat) : list nat := match p with O => [] | S q => S q :: down q end.
+
 Definition init (K P C NN : nat) (progs : list (list op)) : st :=
-  {| head := P; recs := rev (seq 1 P);
+  {| head := P; recs := down P;
      rnext := fun r => if r <=? P then r - 1 else 0;
      rthr := fun r => if (1 <=? r) && (r <=? P) then 2 * P * K else 0;
      slot := fun _ _ => 0;
